@@ -4,6 +4,8 @@ package sim
 // per-run executor (one synctest bubble + simrt.Run per run) and result bookkeeping.
 
 import (
+	datatransfer "github.com/filecoin-project/go-data-transfer/v2"
+	"os"
 	"fmt"
 	mrand "math/rand"
 	"regexp"
@@ -341,6 +343,9 @@ func ExecRun(t *testing.T, prop string, st Stratum, stIdx int, tape *simrt.Tape,
 			t0 := time.Now()
 			s = simrt.Run(tape, maxSteps, horizon, func(s *simrt.Sim) {
 				s.TraceOn = trace
+				if trace && os.Getenv("VERIF_TRACE_TAPE") != "" {
+					simrt.TapeTrace = func(l string) { s.Trace = append(s.Trace, l) }
+				}
 				r.S = s
 				r.W = NewWorld(s)
 				r.W.R = r
@@ -361,6 +366,12 @@ func ExecRun(t *testing.T, prop string, st Stratum, stIdx int, tape *simrt.Tape,
 	}
 	res.Steps = s.Steps
 	res.StepsOut = s.Steps >= maxSteps
+	if os.Getenv("VERIF_DUMP_BLOCKED") != "" {
+		bt := s.BlockedTasks()
+		for id, st := range s.StacksOf(bt) {
+			fmt.Fprintf(os.Stderr, "=== blocked task %s\n%s\n", id, shortStack(st))
+		}
+	}
 	res.SchedHash = s.ScheduleHash()
 	res.Tape = tape.Log
 	if r.W != nil {
@@ -431,18 +442,9 @@ func ExecRun(t *testing.T, prop string, st Stratum, stIdx int, tape *simrt.Tape,
 				}
 				stk := stacks[cb.Task.ID]
 				where := "stuck-at:" + rootFrame(stk) + "(" + cb.Task.BlockOn() + ")"
-				for _, h := range simrt.HoldersOf(cb.Task) {
-					if h == cb.Task {
-						// the callback waits for a lock that it holds itself: name the frame that re-locks and the ones that
-						// led there
-						where = "relocks-own-lock:" + libChain(stk, 3)
-					}
-				}
-				if !strings.HasPrefix(where, "relocks-own-lock:") {
-					if v, rootStk := stuckRoot(s, cb.Task, stk); v != "" {
-						where = v
-						stk += rootStk
-					}
+				if v, rootStk := stuckRoot(s, cb.Task, stk); v != "" {
+					where = v
+					stk += rootStk
 				}
 				r.Fail("C20", "callback-never-returned", callClass(cb.Name)+"|"+where,
 					fmt.Sprintf("%s delivered to node %s at step %d never returned (task %s blocked on %s)\n%s", cb.Name, cb.Node, cb.Step, cb.Task.ID, cb.Task.BlockOn(), shortStack(stk)))
@@ -479,6 +481,12 @@ func stuckRoot(s *simrt.Sim, t *simrt.Task, stk string) (string, string) {
 			hs = simrt.HoldersOf(root)
 		}
 		return root, false
+	}
+	for _, h := range simrt.HoldersOf(t) {
+		if h == t {
+			// the task waits for a lock that it holds itself: name the frame that re-locks and the ones that led there
+			return "relocks-own-lock:" + libChain(stk, 3), ""
+		}
 	}
 	root, cycle := rootOf(t)
 	if root == nil && strings.Contains(stk, "SendSync") {
@@ -538,6 +546,18 @@ func shortStack(st string) string {
 	}
 	return strings.Join(out, "\n")
 }
+
+// sortedBy returns the keys of m ordered by their rendering (deterministic iteration over maps in oracles).
+func sortedBy[K comparable, V any](m map[K]V, str func(K) string) []K {
+	ks := make([]K, 0, len(m))
+	for k := range m {
+		ks = append(ks, k)
+	}
+	sort.Slice(ks, func(i, j int) bool { return str(ks[i]) < str(ks[j]) })
+	return ks
+}
+
+func chidStr(c datatransfer.ChannelID) string { return c.String() }
 
 func sortedKeys[V any](m map[string]V) []string {
 	ks := make([]string, 0, len(m))
